@@ -29,18 +29,66 @@ func blockIf(b *ssa.BasicBlock) *ssa.If {
 }
 
 // phiCond: the block's If condition is (a negation of) a boolean phi - a flag assigned on several paths
-// (`x := a && b; if x`, or `ok := false; if c { ok = true }; ...; if ok`). The phi may live in any dominating block.
+// (`x := a && b; if x`, or `ok := false; if c { ok = true }; ...; if ok`) - or a comparison of a phi with nil (an error
+// assigned on several paths, as left behind when a helper `if err := h(); err != nil` is inlined: the phi merges the
+// helper's returns). The phi may live in any dominating block. flip: the condition is the negation of "phi is true" /
+// "phi != nil".
 func phiCond(b *ssa.BasicBlock) (*ssa.Phi, bool) {
 	iff := blockIf(b)
 	if iff == nil {
 		return nil, false
 	}
 	v, flip := stripNot(iff.Cond)
-	phi, ok := v.(*ssa.Phi)
-	if !ok || !isBoolType(phi.Type()) {
-		return nil, false
+	if phi, ok := v.(*ssa.Phi); ok && isBoolType(phi.Type()) {
+		return phi, flip
 	}
-	return phi, flip
+	if bo, ok := v.(*ssa.BinOp); ok && (bo.Op == token.EQL || bo.Op == token.NEQ) {
+		var x ssa.Value
+		if isNilConst(bo.Y) {
+			x = bo.X
+		} else if isNilConst(bo.X) {
+			x = bo.Y
+		}
+		if phi, ok := x.(*ssa.Phi); ok && !isBoolType(phi.Type()) {
+			if bo.Op == token.EQL {
+				flip = !flip
+			}
+			return phi, flip
+		}
+	}
+	return nil, false
+}
+
+// phiEdgeCond: the condition "phi is true" / "phi != nil" for one incoming value of a flag phi.
+var phiEdgeCondCache = map[ssa.Value]ssa.Value{}
+
+func phiEdgeCond(phi *ssa.Phi, e ssa.Value) ssa.Value {
+	if isBoolType(phi.Type()) {
+		return e
+	}
+	if c, ok := phiEdgeCondCache[e]; ok {
+		return c
+	}
+	c := ssa.OlintCompare(token.NEQ, e, ssa.NewConst(nil, e.Type()))
+	phiEdgeCondCache[e] = c
+	return c
+}
+
+// phiEdgeConst: the truth value of the flag for one incoming value, if it is known.
+func phiEdgeConst(phi *ssa.Phi, e ssa.Value) (bool, bool) {
+	if isBoolType(phi.Type()) {
+		if c, ok := boolConst(e); ok {
+			return c, true
+		}
+		return constBoolResult(e)
+	}
+	if isNilConst(e) {
+		return false, true
+	}
+	if isErrorType(e.Type()) && provablyNonNilError(e) {
+		return true, true
+	}
+	return false, false
 }
 
 func predIndex(b, from *ssa.BasicBlock) int {
@@ -67,13 +115,13 @@ func flagPhis(fn *ssa.Function) []*ssa.Phi {
 	var res []*ssa.Phi
 	var add func(phi *ssa.Phi)
 	add = func(phi *ssa.Phi) {
-		if seen[phi] || len(res) >= 6 {
+		if seen[phi] || len(res) >= 10 {
 			return
 		}
 		seen[phi] = true
 		res = append(res, phi)
 		for _, e := range phi.Edges {
-			if p2, ok := e.(*ssa.Phi); ok && isBoolType(p2.Type()) {
+			if p2, ok := e.(*ssa.Phi); ok && isBoolType(p2.Type()) == isBoolType(phi.Type()) {
 				add(p2)
 			}
 		}
@@ -85,6 +133,58 @@ func flagPhis(fn *ssa.Function) []*ssa.Phi {
 	}
 	flagPhiCache[fn] = res
 	return res
+}
+
+// flagFacts: the non-constant incoming values of the tracked nil-compared phis. Along a path the analysis remembers
+// whether such a value was tested against nil (`if err != nil` inside an inlined helper, before the merged result is tested
+// again by the caller), so that the second test is decided.
+var flagFactCache = map[*ssa.Function][]ssa.Value{}
+
+func flagFacts(fn *ssa.Function) []ssa.Value {
+	if r, ok := flagFactCache[fn]; ok {
+		return r
+	}
+	var res []ssa.Value
+	seen := map[ssa.Value]bool{}
+	for _, phi := range flagPhis(fn) {
+		if isBoolType(phi.Type()) {
+			continue
+		}
+		for _, e := range phi.Edges {
+			if _, isC := phiEdgeConst(phi, e); isC || seen[e] || len(res) >= 16 {
+				continue
+			}
+			if _, isPhi := e.(*ssa.Phi); isPhi {
+				continue
+			}
+			seen[e] = true
+			res = append(res, e)
+		}
+	}
+	flagFactCache[fn] = res
+	return res
+}
+
+// nilTestOf: cond is `x == nil` / `x != nil` (possibly negated): returns x and whether the TRUE edge means x != nil.
+func nilTestOf(cond ssa.Value) (ssa.Value, bool, bool) {
+	v, flip := stripNot(cond)
+	bo, ok := v.(*ssa.BinOp)
+	if !ok || (bo.Op != token.EQL && bo.Op != token.NEQ) {
+		return nil, false, false
+	}
+	var x ssa.Value
+	if isNilConst(bo.Y) {
+		x = bo.X
+	} else if isNilConst(bo.X) {
+		x = bo.Y
+	} else {
+		return nil, false, false
+	}
+	trueMeansNonNil := bo.Op == token.NEQ
+	if flip {
+		trueMeansNonNil = !trueMeansNonNil
+	}
+	return x, trueMeansNonNil, true
 }
 
 // rstate: a block plus, for each tracked flag phi, the predecessor index through which the phi's block was last entered (-1 unknown).
@@ -121,7 +221,7 @@ func flagValue(phis []*ssa.Phi, env string, phi *ssa.Phi, depth int) (ssa.Value,
 			return nil, nil
 		}
 		e := phi.Edges[k]
-		if p2, ok := e.(*ssa.Phi); ok && depth < 4 && isBoolType(p2.Type()) {
+		if p2, ok := e.(*ssa.Phi); ok && depth < 4 && isBoolType(p2.Type()) == isBoolType(phi.Type()) {
 			if v, pb := flagValue(phis, env, p2, depth+1); v != nil {
 				return v, pb
 			}
@@ -145,7 +245,8 @@ func reachCore(starts []rstate, startIdx int, removed []Edge, scan func(b *ssa.B
 	}
 	fn := starts[0].b.Parent()
 	phis := flagPhis(fn)
-	np := len(phis)
+	facts := flagFacts(fn)
+	np := len(phis) + len(facts)
 	type key struct {
 		b   *ssa.BasicBlock
 		env string
@@ -158,7 +259,41 @@ func reachCore(starts []rstate, startIdx int, removed []Edge, scan func(b *ssa.B
 				env = envSet(env, np, i, predIndex(to, from))
 			}
 		}
+		for j, fv := range facts {
+			// a fact about a value does not survive re-executing its definition (next loop iteration)
+			if ins, ok := fv.(ssa.Instruction); ok && ins.Block() == to && envGet(env, len(phis)+j) >= 0 {
+				env = envSet(env, np, len(phis)+j, -1)
+			}
+		}
+		// the edge just taken may itself be a nil test of a tracked value
+		if iff := blockIf(from); iff != nil && len(facts) > 0 && len(from.Succs) == 2 && from.Succs[0] != from.Succs[1] {
+			if x, trueNonNil, ok := nilTestOf(iff.Cond); ok {
+				for j, fv := range facts {
+					if fv == x {
+						nonNil := trueNonNil == (from.Succs[0] == to)
+						v := 0
+						if nonNil {
+							v = 1
+						}
+						env = envSet(env, np, len(phis)+j, v)
+					}
+				}
+			}
+		}
 		return env
+	}
+	factOf := func(env string, v ssa.Value) (bool, bool) {
+		for j, fv := range facts {
+			if fv == v {
+				switch envGet(env, len(phis)+j) {
+				case 0:
+					return false, true
+				case 1:
+					return true, true
+				}
+			}
+		}
+		return false, false
 	}
 	expand := func(st rstate) {
 		phi, flip := phiCond(st.b)
@@ -172,7 +307,11 @@ func reachCore(starts []rstate, startIdx int, removed []Edge, scan func(b *ssa.B
 				continue
 			}
 			if cur != nil {
-				if c, ok := boolConst(cur); ok {
+				c, ok := phiEdgeConst(phi, cur)
+				if !ok && !isBoolType(phi.Type()) {
+					c, ok = factOf(st.env, cur)
+				}
+				if ok {
 					val := c != flip
 					if (i == 0) != val {
 						continue
@@ -412,10 +551,13 @@ func condEdges(fn *ssa.Function, classify func(cond ssa.Value, at *ssa.If) int) 
 		}
 		if phi, flip := phiCond(b); phi != nil {
 			for k, e := range phi.Edges {
-				if _, isC := boolConst(e); isC {
+				if _, isC := phiEdgeConst(phi, e); isC {
 					continue
 				}
-				pol := classify(e, iff)
+				if _, isPhi := e.(*ssa.Phi); isPhi && !isBoolType(phi.Type()) {
+					continue
+				}
+				pol := classify(phiEdgeCond(phi, e), iff)
 				if pol == 0 {
 					continue
 				}
@@ -515,13 +657,10 @@ func (g *CallGuard) edges(p *Program, fn *ssa.Function, depth int) []Edge {
 		maxd = 3
 	}
 	var res []Edge
-	for _, b := range fn.Blocks {
-		iff := blockIf(b)
-		if iff == nil {
-			continue
-		}
+	// verdict of the guard call (or of a helper establishing it) used as a condition: +1 / -1 = pass on the true / false edge
+	directPol := func(cond ssa.Value) int {
 		// direct boolean use
-		pol := boolCond(iff.Cond, func(v ssa.Value) bool {
+		pol := boolCond(cond, func(v ssa.Value) bool {
 			c, ok := isCallResult(v, -1, func(c *ssa.Call) bool { return g.verdictCall(p, c, depth, maxd) })
 			if !ok {
 				return false
@@ -531,7 +670,7 @@ func (g *CallGuard) edges(p *Program, fn *ssa.Function, depth int) []Edge {
 		})
 		if pol != 0 && !g.ErrOnly {
 			// bool verdict: pass edge is where result == Want (for summarised helpers: true = success)
-			c, _ := isCallResult(mustStrip(iff.Cond), -1, func(*ssa.Call) bool { return true })
+			c, _ := isCallResult(mustStrip(cond), -1, func(*ssa.Call) bool { return true })
 			want := g.Want
 			if c != nil && !g.matches(c) {
 				want = true // helper summary: success == true
@@ -539,11 +678,10 @@ func (g *CallGuard) edges(p *Program, fn *ssa.Function, depth int) []Edge {
 			if !want {
 				pol = -pol
 			}
-			res = append(res, edgeFor(b, pol))
-			continue
+			return pol
 		}
 		// error use: pass edge is err == nil
-		pol = nilCond(iff.Cond, func(v ssa.Value) bool {
+		return nilCond(cond, func(v ssa.Value) bool {
 			c, ok := isCallResult(v, -1, func(c *ssa.Call) bool { return g.verdictCall(p, c, depth, maxd) })
 			if !ok {
 				return false
@@ -551,9 +689,39 @@ func (g *CallGuard) edges(p *Program, fn *ssa.Function, depth int) []Edge {
 			_, idx := tupleSource(v)
 			return g.isVerdictResult(c, idx, isErrorType)
 		})
-		if pol != 0 {
+	}
+	for _, b := range fn.Blocks {
+		iff := blockIf(b)
+		if iff == nil {
+			continue
+		}
+		if pol := directPol(iff.Cond); pol != 0 {
 			res = append(res, edgeFor(b, pol))
 			continue
+		}
+		// the verdict reaches the test through a phi (a flag or an error assigned on several paths, e.g. the merged result of
+		// an inlined helper): the edge is a pass edge for the paths that enter the phi with the verdict
+		if phi, flip := phiCond(b); phi != nil {
+			for k, e := range phi.Edges {
+				if _, isC := phiEdgeConst(phi, e); isC {
+					continue
+				}
+				if _, isPhi := e.(*ssa.Phi); isPhi {
+					continue
+				}
+				pol := directPol(phiEdgeCond(phi, e))
+				if pol == 0 {
+					continue
+				}
+				if flip {
+					pol = -pol
+				}
+				ed := edgeFor(b, pol)
+				ed.Pred = phi.Block().Preds[k]
+				if predIndex(phi.Block(), ed.Pred) == k {
+					res = append(res, ed)
+				}
+			}
 		}
 		// flag summary: the condition is a boolean result of a repository helper (a "stop"/"done" flag rather than a
 		// success verdict); the edge on which the flag has value val is a pass edge when every return of the helper that
@@ -922,4 +1090,37 @@ func (m *MustPass) Exposed(fn *ssa.Function) []Site {
 	}
 	m.memo[fn] = res
 	return res
+}
+
+// constBoolResult: v is the i-th result of a static call to a repository function all of whose returns yield the same
+// boolean constant there (helpers.LogAndReturnFalse / LogAndReturnTrue).
+func constBoolResult(v ssa.Value) (bool, bool) {
+	ex, ok := v.(*ssa.Extract)
+	if !ok {
+		return false, false
+	}
+	c, ok := ex.Tuple.(*ssa.Call)
+	if !ok {
+		return false, false
+	}
+	sc := c.Call.StaticCallee()
+	if sc == nil || sc.Blocks == nil {
+		return false, false
+	}
+	rets := returnsOf(sc)
+	if len(rets) == 0 {
+		return false, false
+	}
+	var val bool
+	for i, ret := range rets {
+		if ex.Index >= len(ret.Results) {
+			return false, false
+		}
+		k, isC := boolConst(ret.Results[ex.Index])
+		if !isC || (i > 0 && k != val) {
+			return false, false
+		}
+		val = k
+	}
+	return val, true
 }
